@@ -141,17 +141,19 @@ def cmd_verify(sid, suite=True):
 
 
 def cmd_check(sid, ids=None, tier="quick"):
+    """Runs the checks against a scratch worktree of /repo with the patch applied (VERIF_REPO), so that /repo itself and
+    whatever runs against it in the background are left alone."""
     d, meta = load(sid)
     ids = ids or meta["property"]
-    st = subprocess.run(["git", "-C", "/repo", "status", "--porcelain"], capture_output=True, text=True).stdout.strip()
-    if st:
-        sys.exit("refusing: /repo is dirty:\n" + st)
-    subprocess.run(["git", "-C", "/repo", "apply", os.path.join(d, "patch.diff")], check=True)
+    wt = "/tmp/wt/chk_%d" % os.getpid()
+    subprocess.run(["git", "-C", "/repo", "worktree", "add", "-q", "--detach", wt, "HEAD"], check=True)
     out_all = meta.setdefault("checks", {})
     try:
+        subprocess.run(["git", "-C", wt, "apply", os.path.join(d, "patch.diff")], check=True)
+        env = dict(ENV, VERIF_REPO=wt)
         for pid in ids.split(","):
             t0 = time.time()
-            r = subprocess.run([os.path.join(ROOT, "check"), pid, tier], capture_output=True, text=True, env=ENV)
+            r = subprocess.run([os.path.join(ROOT, "check"), pid, tier], capture_output=True, text=True, env=env)
             lines = [l for l in r.stdout.splitlines() if l.startswith(("VIOLATION", "  sig=", "INCONCLUSIVE"))]
             sigs = sorted({l.split(":")[0].strip().replace("sig=", "") for l in lines if l.startswith("  sig=")})
             out_all["%s/%s" % (pid, tier)] = dict(rc=r.returncode, seconds=round(time.time() - t0), sigs=sigs, first=(lines[0][:400] if lines else ""))
@@ -159,10 +161,7 @@ def cmd_check(sid, ids=None, tier="quick"):
             for l in lines[:2]:
                 print("   " + l[:300])
     finally:
-        subprocess.run(["git", "-C", "/repo", "checkout", "--", "."], check=True)
-        subprocess.run(["git", "-C", "/repo", "clean", "-fdq"], check=False)
-        for pid in ids.split(","):
-            subprocess.run(["git", "-C", ROOT, "checkout", "--", "evidence/%s.json" % pid], capture_output=True)
+        subprocess.run(["git", "-C", "/repo", "worktree", "remove", "--force", wt])
     save(d, meta)
 
 
